@@ -192,7 +192,11 @@ def _build(d):
         sched = [[0, c]] + sched + [[d.pick(nev), c]]
     # iso: the comparison value of each cell is computed in an independent
     # copy of the LIBRARY (not only of the model)
-    return {'model': model, 'nev': nev, 'schedule': sched,
+    # the ROUTE by which the scheduled model came into being: compiled,
+    # extracted from the compiled one (focus: every cell), or persisted and
+    # restored - the comparison values always come from a compiled one
+    via = ['extract', 'json'][d.pick(2)] if d.pick(4) == 0 else 'dict'
+    return {'model': model, 'nev': nev, 'schedule': sched, 'via': via,
             'iso': bool('noref' in model or d.pick(4) == 0)}
 
 
@@ -238,6 +242,20 @@ def judge(case):
     d = GM.to_dict(model)
     try:
         m = lib.compile_dict(d)
+        via = case.get('via', 'dict')
+        if via == 'extract' and model['order']:
+            m = xl.ModelCompiler.extract(m, focus=sorted(m.cells))
+        elif via == 'json':
+            import os
+            import tempfile
+            fd, fn = tempfile.mkstemp(prefix='vf_c05_', suffix='.json')
+            os.close(fd)
+            try:
+                m.persist_to_json_file(fn)
+                m = xl.Model()
+                m.construct_from_json_file(fn, build_code=True)
+            finally:
+                os.remove(fn)
         evs = [xl.Evaluator(m) for _ in range(nev)]
     except Exception as err:  # noqa: BLE001
         t = exc_tag(err)
@@ -297,7 +315,8 @@ def judge(case):
     res.nontrivial = nontrivial
     res.labels = ('fixed' if 'fixed' in case else 'kinds' if model.get(
         'noref') else 'random', 'nev:%d' % nev) + (
-            ('isolated-library',) if case.get('iso') else ())
+            ('isolated-library',) if case.get('iso') else ()) + (
+                ('via:' + case.get('via', 'dict'),))
     return res
 
 
